@@ -30,7 +30,6 @@ LEDGER = {
     ("pipeline::pipeline::parse_ast_from_source_allow_parse_errors", "unwrap"): (1, "same: the root node is always FILE"),
     ("pipeline::pipeline::typecheck_with_packages_and_results", "panic"): (1, "package id lookup for a name taken from the same map's key set two statements earlier"),
     ("pprint::tast_pprint::<impl tast::Ty>::to_pretty", "unwrap"): (2, "fmt::Write into a String cannot fail"),
-    ("tast::Ty::get_constr_name_unsafe", "panic"): (1, "called on the head of a TApp / nominal type only; reviewed callers in typer::util guard with is-nominal tests"),
     ("tast::<impl common::Prim>::zero_for_int_ty", "panic"): (1, "called with a type for which is_integer_ty held (integer_literal_target / typed literal arms)"),
     ("tast::<impl common::Prim>::from_float_literal", "panic"): (1, "called with TFloat32/TFloat64 only (literal arms)"),
     ("parser::MarkerOpened::completed", "panic"): (1, "marker protocol: the slot at index was written by open()"),
